@@ -8,8 +8,15 @@ exported ODE right-hand side), x networks x {grid, graph}:
   (iii) each Euler step of unflagged entries equals the reference step from the previous recorded state;
   (iv)  apply_reaction at every position changes exactly the unflagged entries of that cell by n*delta;
   (v)   every Gillespie step is a legal event of the CME model with the chemostat exemption applied.
+Plus (vi) the argument lattice of apply_reaction (state omitted / list / tuple / ndarray / UnitArray x chemostat map
+omitted / explicit list / tuple / ndarray differing from the system's own map x update x positional / keyword reaction):
+the map IN EFFECT is the explicit one when given; and (vii) wide networks (34 and 66 species) with a flag on species
+index 0, 1, 30, 31, 32, 33 or the last one: flagged entries bit-constant in every engine, Euler steps follow the rate
+law, Gillespie steps are legal events, and a tau-leap entry whose outflow makes "never changed" impossible (probability
+below 1e-30 under the Poisson-firings model) is not frozen.
 """
 import itertools
+import math
 import struct
 
 from mc import core, pool, models, eng, uq
@@ -20,6 +27,7 @@ from strengths import kinetics  # noqa: E402
 
 TOL = 1e-9
 DT = 2.0 ** -8
+FROZEN_EPS = 1e-30
 
 
 def _bits(x):
@@ -85,7 +93,10 @@ def gen_cases(tier, seed0):
                     spec = {"species": [{"label": labels[s], "D": D[s]} for s in range(ns)],
                             "reactions": reactions, "envs": [""], "space": _space(gtype, nc),
                             "state": [float(v) for v in STATE_INT[:ns * nc]], "chemostats": chem}
-                    yield {"shape": [ns, nc], "net": netname, "gtype": gtype, "spec": spec, "seeds": seeds}
+                    c = {"shape": [ns, nc], "net": netname, "gtype": gtype, "spec": spec, "seeds": seeds}
+                    if reactions and (ns * nc <= 4 or tier == "thorough"):
+                        c["lattice"] = True      # (vi) full argument lattice of apply_reaction on this system
+                    yield c
 
 
 def _cmp_entries(tag, got, ref, scale, chem, out, extra=None):
@@ -99,7 +110,292 @@ def _cmp_entries(tag, got, ref, scale, chem, out, extra=None):
             return
 
 
+def _maxpmf(lam):
+    """max_j Poisson(lam; j) (attained at j = floor(lam))."""
+    if not lam > 0:
+        return 1.0
+    j = math.floor(lam)
+    return math.exp(-lam + j * math.log(lam) - math.lgamma(j + 1))
+
+
+def _frozen_bound(spec, chem, d, dt, q):
+    """Upper bound of P(entry q shows its initial value in every sample) under the documented tau-leap model (firings of
+    channel c in a step ~ independent Poisson(a_c(x) dt), x += sum n_c effect_c): given the state of step k, the net change
+    of q is zero only if the total count of the channels that change q by one given amount e takes one particular value,
+    which has probability <= max_j Poisson(lambda_e; j); the product over the steps bounds the whole event
+    (P(frozen throughout and product <= eps) <= eps, optional stopping)."""
+    bound = 1.0
+    for k in range(len(d) - 1):
+        groups = {}
+        for name, prop, eff in cme.channels(spec, d[k], chem):
+            e = eff.get(q, 0)
+            if e and prop > 0:
+                groups[e] = groups.get(e, 0.0) + prop * dt
+        if groups:
+            bound *= min(_maxpmf(lam) for lam in groups.values())
+    return bound
+
+
+def _engines(out, spec, system, seeds, dt, nsteps, gil_tmax=0.15, gil_iter=120):
+    chem = spec["chemostats"]
+    x0 = spec["state"]
+    n = len(x0)
+    for kind in eng.KINDS:
+        for seed in (seeds if kind != "euler" else seeds[:1]):
+            try:
+                sc_ = {"system": spec, "t_sample": [0], "policy": "on_iteration", "seed": seed, "isp": "none",
+                       "time_step": dt, "t_max": (nsteps * dt - dt / 2) if kind != "gillespie" else gil_tmax}
+                script = models.build_script(sc_, system=system)
+                traj, nit = eng.simulate(kind, script, max_iter=max(gil_iter, nsteps + 5))
+                t, d = models.traj_arrays(traj)
+            except Exception as e:
+                out.append(("C03:%s:unexpected-exception" % kind, "%s: %s" % (type(e).__name__, e)))
+                continue
+            if not d or d[0] != [float(v) for v in x0]:
+                out.append(("C03:%s:t0-record" % kind, "first record %r is not the initial state %r" % (d[:1], x0)))
+                continue
+            bad = False
+            for k, rec in enumerate(d):
+                for q in range(n):
+                    if chem[q] and _bits(rec[q]) != _bits(x0[q]):
+                        out.append(("C03:%s:flagged-entry-changed" % kind,
+                                    "seed %d sample %d: chemostated entry %d went %.17g -> %.17g" % (seed, k, q, x0[q], rec[q])))
+                        bad = True
+                        break
+                if bad:
+                    break
+            if bad:
+                continue
+            if kind == "euler":
+                for k in range(len(d) - 1):
+                    ref, rsc = ratelaw.euler_step(spec, d[k], dt, chemostats=chem)
+                    before = len(out)
+                    _cmp_entries("euler-step", d[k + 1], ref, rsc, chem, out,
+                                 extra=[4e-16 * (abs(v) + abs(w)) for v, w in zip(d[k], d[k + 1])])
+                    if len(out) > before:
+                        break
+            elif kind == "gillespie":
+                for k in range(len(d) - 1):
+                    tab, a0 = cme.effect_table(cme.channels(spec, d[k], chem))
+                    dk = cme.diff_key(d[k], d[k + 1])
+                    if dk not in tab:
+                        if n > 16:      # wide states: the change only
+                            what = "seed %d step %d: the change %r (entry, delta) of the %d-entry state" % (seed, k, dk, n)
+                        else:
+                            what = "seed %d step %d: %r -> %r (change %r)" % (seed, k, d[k], d[k + 1], dk)
+                        out.append(("C03:gillespie:illegal-step",
+                                    ("%s is not an enabled event with the chemostat exemption; enabled effects: %r"
+                                     % (what, sorted(tab)))[:900]))
+                        break
+            else:  # tau-leap: unflagged entries stay integers; flagged handled above
+                for k, rec in enumerate(d):
+                    if any(v != round(v) for v in rec):
+                        out.append(("C03:tauleap:non-integer", "seed %d sample %d: %r" % (seed, k, rec[:40])))
+                        bad = True
+                        break
+                if bad or len(d) < 2:
+                    continue
+                # an unflagged entry ignores the flags of the other entries: it may not be frozen when its own channels
+                # make that (practically) impossible
+                for q in range(n):
+                    if chem[q] or any(rec[q] != x0[q] for rec in d):
+                        continue
+                    b = _frozen_bound(spec, chem, d, dt, q)
+                    if b <= FROZEN_EPS:
+                        out.append(("C03:tauleap:unflagged-entry-frozen",
+                                    "seed %d: entry %d (not chemostated, amount %g) keeps its initial value in all %d samples; under "
+                                    "the Poisson-firings model this has probability <= %.3g" % (seed, q, x0[q], len(d), b)))
+                        break
+
+
+STATE_FORMS = ["omitted", "list", "tuple", "ndarray", "UnitArray"]
+MAP_FORMS = ["list", "tuple", "ndarray"]
+MAP_VARIANTS = ["complement", "flip-one"]
+
+
+def _carrier(form, values, system=None):
+    import numpy as np
+    if form == "list":
+        return list(values)
+    if form == "tuple":
+        return tuple(values)
+    if form == "ndarray":
+        return np.array(values)
+    from strengths.units import UnitArray
+    return UnitArray([float(v) for v in values], "molecule")
+
+
+def _apply_lattice(system, spec, out):
+    """(vi) every combination of the documented arguments of apply_reaction.  The documentation: state "State to which the
+    reaction should be applied. if None, the system state is used instead"; chemostats "Chemostat map to be used. If None,
+    the one of the system is used instead"; update "tells whether the resulting state should be set as the system state".
+    Oracle (statement): entries flagged in the map in effect do not change, the other entries of the target cell change
+    by n x the stoichiometric difference, all other cells are untouched."""
+    chem = spec["chemostats"]
+    x0 = [float(v) for v in spec["state"]]
+    ns = len(spec["species"])
+    n = len(x0)
+    nc = n // ns
+    xs = [x0[q] + 10.0 + q for q in range(n)]          # an explicit state that differs from the system's own everywhere
+    irr = ratelaw.irreversible(spec)
+    call = 0
+    try:
+        for ri in range(len(spec["reactions"])):
+            nu = irr[2 * ri][1]
+            for pos in range(nc):
+                maps = [None]
+                comp = [0 if chem[q] else 3 for q in range(n)]                     # every flag inverted (set flags carry 3)
+                one = [int(v) for v in chem]
+                qf = ((ri + pos) % ns) * nc + pos                                   # one entry of the target cell inverted
+                one[qf] = 0 if one[qf] else 1
+                for mform in MAP_FORMS:
+                    maps.append((mform, "complement", comp))
+                    maps.append((mform, "flip-one", one))
+                for sform in STATE_FORMS:
+                    for m in maps:
+                        for update in (False, True):
+                            for how in ("positional", "keyword"):
+                                nn = (1, -1, 2)[call % 3]
+                                call += 1
+                                kw = {"position": pos, "n": nn}
+                                if sform != "omitted":
+                                    kw["state"] = _carrier(sform, xs)
+                                if m is not None:
+                                    kw["chemostats"] = _carrier(m[0], m[2])
+                                if update:
+                                    kw["update"] = True
+                                desc = "apply_reaction(%s%d, position=%d, n=%d%s%s%s)" % (
+                                    "reaction=" if how == "keyword" else "", ri, pos, nn,
+                                    ", state=<%s>" % sform if sform != "omitted" else "",
+                                    ", chemostats=<%s %s %r>" % (m[0], m[1], m[2]) if m is not None else "",
+                                    ", update=True" if update else "")
+                                if how == "keyword":
+                                    st = system.apply_reaction(reaction=ri, **kw)
+                                else:
+                                    st = system.apply_reaction(ri, **kw)
+                                base = xs if sform != "omitted" else x0
+                                eff = m[2] if m is not None else chem
+                                exp = [base[q] + (nn * nu[q // nc] if (q % nc == pos and not eff[q]) else 0) for q in range(n)]
+                                got = [float(v) for v in st.value]
+                                tag = ":explicit-map" if m is not None else ""
+                                for q in range(n):
+                                    if got[q] != exp[q]:
+                                        out.append(("C03:apply_reaction:%s%s" % ("flagged-entry-changed" if eff[q] else "wrong-entry", tag),
+                                                    "%s on own map %r, own state %r: entry %d (%s in the map in effect) became %.6g, expected %.6g"
+                                                    % (desc, chem, x0, q, "flagged" if eff[q] else "not flagged", got[q], exp[q])))
+                                        raise StopIteration
+                                now = [float(v) for v in system.state.value]
+                                if update:
+                                    if now != exp:
+                                        out.append(("C03:apply_reaction:update-state%s" % tag,
+                                                    "%s: system state afterwards %r, expected %r" % (desc, now, exp)))
+                                        raise StopIteration
+                                    system.state = list(x0)
+                                    if [float(v) for v in system.state.value] != x0:
+                                        out.append(("C03:checker:state-restore", "system.state = list did not restore the state"))
+                                        raise StopIteration
+                                elif now != x0:
+                                    out.append(("C03:apply_reaction:system-state-mutated%s" % tag,
+                                                "%s changed the system state to %r" % (desc, now)))
+                                    raise StopIteration
+    except StopIteration:
+        pass
+    except Exception as e:
+        out.append(("C03:apply_reaction:unexpected-exception", "call %d: %s: %s" % (call, type(e).__name__, e)))
+    try:
+        system.state = list(x0)
+    except Exception:
+        pass
+    return call
+
+
+WIDE_DT = 2.0 ** -4
+WIDE_STEPS = 32
+
+
+def _hot(ns):
+    return [0, 1, 2, 30, 31, 32, 33] + ([34] if ns > 35 else []) + ([ns - 2, ns - 1] if ns > 35 else [])
+
+
+def wide_spec(ns, gtype, flags):
+    """ns species S0.. in 2 cells: S_i -> S_(i+1) (own rate constant), the last one decays; every D > 0.  The species around
+    the indices of interest carry large amounts (most of the stochastic activity), the others small ones."""
+    labels = ["S%d" % s for s in range(ns)]
+    reactions = [{"eq": [[[labels[s], 1]], [[labels[s + 1], 1]]], "kf": 0.5 + (s % 7) * 0.125, "kr": 0.0} for s in range(ns - 1)]
+    reactions.append({"eq": [[[labels[ns - 1], 1]], []], "kf": 1.0, "kr": 0.0})
+    hot = _hot(ns)
+    nc = 2
+    state = [float(300 + 7 * (q % 5)) if (q // nc) in hot else float(12 + q % 4) for q in range(ns * nc)]
+    chem = [0] * (ns * nc)
+    for s, c, v in flags:
+        chem[s * nc + c] = v
+    if gtype == "grid":
+        space = {"type": "grid", "w": 2, "h": 1, "d": 1, "vol": 2.0}
+    else:
+        space = {"type": "graph", "nodes": [{"vol": 1.0, "env": 0}, {"vol": 8.0, "env": 0}], "edges": [[0, 1, 1.5, 0.75]]}
+    return {"species": [{"label": labels[s], "D": 0.5 + (s % 5) * 0.25} for s in range(ns)], "reactions": reactions,
+            "envs": [""], "space": space, "state": state, "chemostats": chem}
+
+
+def gen_wide(tier, seed0):
+    seeds = list(range(1000 * seed0, 1000 * seed0 + (2 if tier == "quick" else 4)))
+    for ns in (34, 66):
+        singles = [0, 1, 30, 31, 32, 33, ns - 1]
+        flagsets = []
+        for k, s in enumerate(singles):
+            # (the library's own engine set-up of a 66-species network takes ~0.5 s: quick alternates the flagged cell there)
+            for c in ((0, 1) if (ns < 40 or tier == "thorough") else (k % 2,)):
+                flagsets.append([[s, c, [1, 2, 5][(k + c) % 3]]])
+        flagsets.append([[1, 0, 1], [33, 0, 1]])
+        flagsets.append([[31, 0, 1], [32, 1, 2]])
+        if tier == "thorough":
+            flagsets.append([[0, 0, 1], [32, 0, 1]])
+            flagsets.append([[31, 1, 1], [ns - 1, 1, 1]])
+            flagsets.append([[s, 0, 1] for s in singles])
+        for flags in flagsets:
+            for gtype in ("grid", "graph"):
+                yield {"wide": True, "shape": [ns, 2], "gtype": gtype, "flags": flags, "net": "chain of %d species" % ns,
+                       "spec": wide_spec(ns, gtype, flags), "seeds": seeds if (ns < 40 or tier == "thorough") else seeds[:1]}
+
+
+def check_wide(case):
+    """(vii) the flag consulted is the one of that very species -- also for species indices beyond 31."""
+    out = []
+    spec = case["spec"]
+    ns, nc = case["shape"]
+    chem = spec["chemostats"]
+    x0 = [float(v) for v in spec["state"]]
+    try:
+        system = models.build_system(spec)
+    except Exception as e:
+        return [("C03:build:unexpected-exception", "%s: %s" % (type(e).__name__, e))]
+    # apply_reaction around the flagged species (the reaction that produces it and the one that consumes it)
+    try:
+        irr = ratelaw.irreversible(spec)
+        for s, c, v in case["flags"]:
+            for ri in sorted({max(s - 1, 0), s}):
+                nu = irr[2 * ri][1]
+                for pos in range(nc):
+                    got = [float(w) for w in system.apply_reaction(ri, position=pos, n=1).value]
+                    for q in range(ns * nc):
+                        exp = x0[q] + (nu[q // nc] if (q % nc == pos and not chem[q]) else 0)
+                        if got[q] != exp:
+                            out.append(("C03:apply_reaction:%s" % ("flagged-entry-changed" if chem[q] else "wrong-entry"),
+                                        "%d species, flags %r: reaction %d at cell %d: entry %d became %.6g, expected %.6g"
+                                        % (ns, case["flags"], ri, pos, q, got[q], exp)))
+                            raise StopIteration
+    except StopIteration:
+        pass
+    except Exception as e:
+        out.append(("C03:apply_reaction:unexpected-exception", "%s: %s" % (type(e).__name__, e)))
+    _engines(out, spec, system, case["seeds"], WIDE_DT, WIDE_STEPS)
+    return out
+
+
+
 def check_case(case):
+    if case.get("wide"):
+        return check_wide(case)
     out = []
     spec = case["spec"]
     ns, nc = case["shape"]
@@ -161,55 +457,9 @@ def check_case(case):
         pass
     except Exception as e:
         out.append(("C03:apply_reaction:unexpected-exception", "%s: %s" % (type(e).__name__, e)))
-    # engines
-    for kind in eng.KINDS:
-        for seed in (case["seeds"] if kind != "euler" else case["seeds"][:1]):
-            try:
-                sc_ = {"system": spec, "t_sample": [0], "policy": "on_iteration", "seed": seed, "isp": "none",
-                       "time_step": DT, "t_max": (5 * DT - DT / 2) if kind != "gillespie" else 0.15}
-                script = models.build_script(sc_, system=system)
-                traj, nit = eng.simulate(kind, script, max_iter=120)
-                t, d = models.traj_arrays(traj)
-            except Exception as e:
-                out.append(("C03:%s:unexpected-exception" % kind, "%s: %s" % (type(e).__name__, e)))
-                continue
-            if not d or d[0] != [float(v) for v in x0]:
-                out.append(("C03:%s:t0-record" % kind, "first record %r is not the initial state %r" % (d[:1], x0)))
-                continue
-            bad = False
-            for k, rec in enumerate(d):
-                for q in range(n):
-                    if chem[q] and _bits(rec[q]) != _bits(x0[q]):
-                        out.append(("C03:%s:flagged-entry-changed" % kind,
-                                    "seed %d sample %d: chemostated entry %d went %.17g -> %.17g" % (seed, k, q, x0[q], rec[q])))
-                        bad = True
-                        break
-                if bad:
-                    break
-            if bad:
-                continue
-            if kind == "euler":
-                for k in range(len(d) - 1):
-                    ref, rsc = ratelaw.euler_step(spec, d[k], DT, chemostats=chem)
-                    before = len(out)
-                    _cmp_entries("euler-step", d[k + 1], ref, rsc, chem, out,
-                                 extra=[4e-16 * (abs(v) + abs(w)) for v, w in zip(d[k], d[k + 1])])
-                    if len(out) > before:
-                        break
-            elif kind == "gillespie":
-                for k in range(len(d) - 1):
-                    tab, a0 = cme.effect_table(cme.channels(spec, d[k], chem))
-                    dk = cme.diff_key(d[k], d[k + 1])
-                    if dk not in tab:
-                        out.append(("C03:gillespie:illegal-step",
-                                    "seed %d step %d: %r -> %r (change %r) is not an enabled event with the chemostat "
-                                    "exemption; enabled effects: %r" % (seed, k, d[k], d[k + 1], dk, sorted(tab))[:900]))
-                        break
-            else:  # tau-leap: unflagged entries stay integers; flagged handled above
-                for k, rec in enumerate(d):
-                    if any(v != round(v) for v in rec):
-                        out.append(("C03:tauleap:non-integer", "seed %d sample %d: %r" % (seed, k, rec)))
-                        break
+    if case.get("lattice"):
+        _apply_lattice(system, spec, out)
+    _engines(out, spec, system, case["seeds"], DT, 5)
     return out
 
 
@@ -247,7 +497,20 @@ def _work(job):
         res = check_case(case)
         nflag = sum(case["spec"]["chemostats"])
         nruns = 1 + 2 * len(case["seeds"])
-        acc.add(states=1, transitions=nruns + 2, traces=nruns + 2, evaluations=nruns + 2,
+        if case.get("wide"):
+            acc.count("wide_cases_%d_species" % case["shape"][0])
+            acc.add(states=1, transitions=nruns, traces=nruns, evaluations=nruns, nontrivial=1)
+            acc.count("wide_cases_with_flag_on_species_index>=31", 1 if any(f[0] >= 31 for f in case["flags"]) else 0)
+            acc.count("engine_runs", nruns)
+            for key, what in res:
+                acc.violation(key, what, case)
+            continue
+        ncalls = 0
+        if case.get("lattice"):
+            ncalls = len(case["spec"]["reactions"]) * case["shape"][1] * len(STATE_FORMS) * (1 + len(MAP_FORMS) * len(MAP_VARIANTS)) * 4
+            acc.count("apply_reaction_lattice_calls", ncalls)
+            acc.count("apply_reaction_lattice_systems")
+        acc.add(states=1, transitions=nruns + 2 + ncalls, traces=nruns + 2, evaluations=nruns + 2 + ncalls,
                 nontrivial=1 if 0 < nflag else 0)
         acc.count("flag_maps_with_flag_on_species_index>=1",
                   1 if any(case["spec"]["chemostats"][case["shape"][1]:]) else 0)
@@ -256,6 +519,10 @@ def _work(job):
             acc.violation(key, what, case)
     if lo == 0:
         acc.sample(_CASES[min(5, len(_CASES) - 1)])
+    if _CASES[lo].get("wide") and lo > 0 and not _CASES[lo - 1].get("wide"):
+        c = dict(_CASES[lo])
+        c["spec"] = "wide_spec(%d, %r, flags)" % (c["shape"][0], c["gtype"])
+        acc.sample(c)
     return acc.pack()
 
 
@@ -263,13 +530,19 @@ def run(ctx):
     global _CASES
     _CASES = list(gen_cases(ctx.tier, ctx.seed))
     nplain = len(_CASES)
+    nlat = sum(1 for c in _CASES if c.get("lattice"))
     _CASES += list(gen_owned(ctx.tier))
+    nowned = len(_CASES) - nplain
+    _CASES += list(gen_wide(ctx.tier, ctx.seed))
+    nwide = len(_CASES) - nplain - nowned
     eng.so_path("plain")
     try:
         eng.so_path("probe")
     except Exception:
         pass
-    jobs = pool.chunks(len(_CASES), 12)
+    nhead = nplain + nowned
+    # the wide cases are the heaviest: small chunks, started first
+    jobs = [(nhead + lo, nhead + hi) for lo, hi in pool.chunks(nwide, 2)] + pool.chunks(nhead, 12)
     res = pool.pmap(_work, jobs, timeout=600)
     done = 0
     for job, r in zip(jobs, res):
@@ -284,11 +557,24 @@ def run(ctx):
                  nplain, min(done, nplain), exhaustive=(done == len(_CASES)))
     ctx.subspace("owned draws (probe build): all 64 flag subsets of a 2-species periodic 3x1x1 grid; in one molecular state every u of "
                  "the grid {(k+1/2)/M} is supplied for both draws of a Gillespie step: legality, event measure vs CME probability "
-                 "(chemostated entries keep their propensities), waiting-time quantiles", len(_CASES) - nplain,
-                 len(_CASES) - nplain if done == len(_CASES) else 0, exhaustive=(done == len(_CASES)))
+                 "(chemostated entries keep their propensities), waiting-time quantiles", nowned,
+                 nowned if done == len(_CASES) else 0, exhaustive=(done == len(_CASES)))
+    ctx.subspace("apply_reaction argument lattice on every system with a reaction of the shapes (2,1), (3,1), (2,2) (thorough: all "
+                 "shapes), all flag subsets as the system's own map: per (reaction, position) state in {omitted, list, tuple, "
+                 "ndarray, UnitArray (values differing from the system's own)} x chemostats in {omitted, list / tuple / ndarray x "
+                 "{every flag inverted, one entry of the target cell inverted}} x update in {False, True} x reaction positional / "
+                 "keyword (n cycles through 1, -1, 2): map in effect respected, update=True sets / update=False keeps the system state",
+                 nlat, nlat if done == len(_CASES) else 0, exhaustive=(done == len(_CASES)))
+    ctx.subspace("wide networks: 34 and 66 species S0.. (S_i -> S_i+1 with own rate constants, last one decays, all D > 0) on a 2-cell "
+                 "grid and a 2-node graph; one flag on species index 0, 1, 30, 31, 32, 33 or last in cell 0 and in cell 1 (quick, 66 "
+                 "species: cells alternate, one seed) (values 1, 2, 5) plus flag pairs (thorough: more pairs and all seven); apply_reaction around the flagged species; Euler %d steps "
+                 "vs reference, tau-leap (flagged constant, integers, no impossible frozen entry), Gillespie 120 legal events x "
+                 "seed window" % WIDE_STEPS, nwide, nwide if done == len(_CASES) else 0, exhaustive=(done == len(_CASES)))
     ctx.rule("one case per (shape, flag subset, network, space type); non-trivial = at least one entry flagged; all "
              "2^(species*cells) subsets are enumerated so a wrong-species / wrong-cell flag lookup cannot hide")
     ctx.assume("reference rate law and CME channel model (mc/ref); seed window [1000*VERIF_SEED, +2 quick / +8 thorough)")
+    ctx.assume("tau-leap 'unflagged-entry-frozen': documented model (DESIGN A.3: firings of a channel in a step ~ independent "
+               "Poisson(a dt)); reported only when the probability bound of the observation is <= %g" % FROZEN_EPS)
     ctx.note("seed_window", [_CASES[0]["seeds"][0], _CASES[0]["seeds"][-1]])
 
 
